@@ -28,7 +28,7 @@ type c06Row struct {
 	ErrNames []string `json:"err_names"`
 }
 
-var stimulusName = []string{"absent", "valid", "wrong-type", "overflow", "bad-date", "bad-uuid", "malformed-json", "wrong-prefix", "duplicated-header", "empty", "bad-escape"}
+var stimulusName = []string{"absent", "valid", "wrong-type", "overflow", "bad-date", "bad-uuid", "malformed-json", "wrong-prefix", "duplicated-header", "empty", "bad-escape", "valid-percent-plus"}
 
 func c06Shapes() []PShape {
 	var out []PShape
@@ -159,6 +159,11 @@ func (s PShape) stimuli(ctx *Ctx) (map[int]J, error) {
 		if s.Loc == "path" && (s.Style == "label" || s.Style == "matrix") {
 			out[7] = s.rawRequest([]string{"1,2"})
 		}
+	case "str":
+		if s.Loc == "header" || s.Loc == "cookie" {
+			// header and cookie values travel as they are: '%' and '+' in them are data, not escapes — a well-formed request
+			out[11] = s.rawRequest([]string{"50%+x"})
+		}
 	case "date":
 		out[4] = bad("2021-13-45")
 	case "uuid":
@@ -204,7 +209,7 @@ func c06Measure(ctx *Ctx) ([]c06Row, []string, error) {
 			if err != nil {
 				return nil, nil, err
 			}
-			for k := 0; k <= 10; k++ {
+			for k := 0; k <= 11; k++ {
 				req, ok := st[k]
 				if !ok {
 					continue
@@ -288,7 +293,7 @@ func genC06(ctx *Ctx) error {
 }
 
 func runC06(ctx *Ctx) error {
-	ctx.Res.Rule = "exhaustive table: framework(7) x location(4) x {styled int32/bool/date/uuid/int-array/string, label and matrix arrays in the path, JSON content, pass-through} x required x applicable stimulus {absent, valid, wrong type, overflow, bad date, bad uuid, malformed JSON, wrong prefix, duplicated header, empty} x {default error path, configured error handler}; one request per cell; plus every subset of omitted parameters on a 5-parameter operation; CORR of the runtime model (value classes); CORR of the integer layer: boundary and seeded texts (signs, leading zeros, 32/64-bit bounds and their neighbours, junk, non-ASCII digits) through strconv.ParseInt and through the runtime binder into int32/int64 vs IntParse.parseInt; CORR of the date layer: fixed and seeded texts (leap days, month/day bounds, short and long fields, other separators, junk) through time.Parse and the runtime binder into openapi_types.Date vs DateParse.parse; the same for booleans (every letter-case spelling) and UUIDs (canonical, urn, braces, 32 digits, damaged texts) vs IntParse.parseBool / UuidParse.parse; non-trivial = every cell"
+	ctx.Res.Rule = "exhaustive table: framework(7) x location(4) x {styled int32/bool/date/uuid/int-array/string, label and matrix arrays in the path, JSON content, pass-through} x required x applicable stimulus {absent, valid, valid with '%' and '+' (header, cookie), wrong type, overflow, bad date, bad uuid, malformed JSON, wrong prefix, duplicated header, empty} x {default error path, configured error handler}; one request per cell; plus every subset of omitted parameters on a 5-parameter operation; CORR of the runtime model (value classes); CORR of the integer layer: boundary and seeded texts (signs, leading zeros, 32/64-bit bounds and their neighbours, junk, non-ASCII digits) through strconv.ParseInt and through the runtime binder into int32/int64 vs IntParse.parseInt; CORR of the date layer: fixed and seeded texts (leap days, month/day bounds, short and long fields, other separators, junk) through time.Parse and the runtime binder into openapi_types.Date vs DateParse.parse; the same for booleans (every letter-case spelling) and UUIDs (canonical, urn, braces, 32 digits, damaged texts) vs IntParse.parseBool / UuidParse.parse; non-trivial = every cell"
 	if err := corrCodec(ctx, "C06"); err != nil {
 		return err
 	}
@@ -314,7 +319,7 @@ func runC06(ctx *Ctx) error {
 	for _, r := range rows {
 		ctx.Res.Eval(J{"fw": allFrameworks[r.FW], "shape": r.Shape, "stimulus": stimulusName[r.Stimulus], "errh": r.ErrH}, true)
 		ctx.Res.Count("stimulus:" + stimulusName[r.Stimulus])
-		must := r.Stimulus >= 2 || (r.Stimulus == 0 && r.Required)
+		must := (r.Stimulus >= 2 && r.Stimulus != 11) || (r.Stimulus == 0 && r.Required)
 		ok := false
 		if must {
 			ok = !r.Ran && r.Status == 400 && (!r.ErrH || r.Errs == 1)
